@@ -22,7 +22,8 @@ import engine_plugin as ep
 from vlib import Case, Stream, BUILD, VERIF, model_cmd
 
 ID = "C04"
-LEAN_MODULES = ['HgVerif.Props.C04', 'HgVerif.Props.C04Bind', 'HgVerif.Model.Engine', 'HgVerif.Model.Extracted']
+LEAN_MODULES = ['HgVerif.Props.C04', 'HgVerif.Props.C04Bind', 'HgVerif.Props.C04KeySet', 'HgVerif.Model.Engine',
+                'HgVerif.Model.Extracted']
 _P = 'HgVerif.Tracking.'
 THEOREMS = [_P + n for n in [
     # writes (unchanged)
@@ -44,6 +45,13 @@ THEOREMS = [_P + n for n in [
     'sampled_bind_ticks_once', 'sampled_bind_samples_children', 'plain_first_bind_agrees', 'consumer_valid_eq_producer',
     'consumer_lmt_eq_link', 'consumer_lmt_ge_producer', 'consumer_modified_iff_lmt_now',
     'consumer_lmt_eq_producer_after_tick', 'consumer_lmt_after_tick_run', 'two_consumers_agree',
+]] + ['HgVerif.KeySet.' + n for n in [
+    # the key-set endpoint of a dictionary (its own tracking record)
+    'keyset_lmt_le_dict_lmt', 'step_kinv', 'run_kinv', 'keyset_valid_iff_dict_valid', 'keyset_valid_iff_dict_valid_fresh',
+    'stamps_eq_spec', 'keyset_modified_iff_membership_changed_or_first_write', 'keyset_lmt_eq_spec',
+    'prefix_blind_erase_leaves_keyset_invalid', 'prefix_not_keysetValid', 'clear_validates_keyset',
+    'seeded_touch_leaves_keyset_invalid',
+    'keyset_endpoint_record', 'keyset_consumer_eq_keyset_record',
 ]]
 CXX_TARGETS = ['hgv_engine', 'hgv_track', 'hgv_trackbind']
 USES_EXTRACT = True
@@ -88,7 +96,21 @@ RULE = ('engine-probe: flat graphs with 1-3 probe nodes: a probe wakes itself ev
         'reported as feature, as a violation only with HGV_C04_STRICT_LMT=1); an unbound input reads not valid and, outside '
         'its unbind cycle, not modified.  Producers: lmt = time of the last mutation call, modified iff lmt = t, delta views '
         'empty when not modified, child modified => parent modified.  non-trivial = a quiet-cycle dump after a late (re)bind '
-        'to a valid output before that output\'s next tick')
+        'to a valid output before that output\'s next tick.  '
+        'Key sets (schemas tsd and nested tsdn = TSD<Int,TSD<Int,TS<Int>>>): every dictionary dump continues with its KEY-SET '
+        'endpoint (TSDOutputView::key_set(): own valid / modified / lmt / added / removed; also for every inner dictionary); '
+        'bindK binds a TSS input to a key set; writes that change no membership: touch (bare touch()), empty (apply_delta of an '
+        'empty delta - not applied to a valid dictionary), setall (copy_value_from, also of an empty map), value-only set; '
+        'nset / ntouch / nempty / ndel on inner dictionaries.  Decided from the dumps and the op list alone: the key set is '
+        'written exactly when the dictionary is written and (the membership changes or the key set has never been valid): so '
+        'it is VALID from the dictionary\'s first write on whatever that write is, MODIFIED exactly in the cycles with a '
+        'membership change or that first write, LMT = the latest such cycle, never above the dictionary\'s; its delta views '
+        'equal the dictionary\'s added / removed keys when modified and are empty otherwise; its members are the '
+        'dictionary\'s keys; a TSS input bound to it reads the same flags, members and delta views in every cycle.  The rule '
+        'holds for every kind of first write: a key insert, touch, empty delta, empty whole value, clear, and an erase of an '
+        'absent key (repaired in /repo 8d7f72a; before, that erase validated the dictionary and not its key set).  '
+        'non-trivial (key sets) = a quiet-cycle dump of a still empty dictionary whose '
+        'first write changed no membership')
 TRUSTED = ['TSW positions and the producer-side delta bookkeeping of TSS/TSD (slot stores) are exercised on the real code by '
            'the C05/C20 drivers; the track stream covers TS, TSB and fixed TSL (any nesting); the track-bind stream covers TS, '
            'TSS and TSD as whole targets with the TSD children read through the link; the engine stream covers TS[int] '
@@ -98,7 +120,9 @@ ASSUMPTIONS = ["cycle times non-decreasing; a write's time is the current cycle 
                'inputs are peered TSInputs bound at the root of the output with bind_output / bind_output_sampled (what REF '
                'retargets and nested boundaries call; the REF machinery itself is C13)',
                'track-bind: no invalidation of a bound target (that is the track stream and finding C04-consumer); the same key '
-               'is not added and removed within one cycle of one output (C05)']
+               'is not added and removed within one cycle of one output (C05)',
+               'key sets: an outer key of a nested dictionary is not re-created in the cycle that erased it; key-set inputs are '
+               'bound once with the plain bind']
 TECHNIQUE = ('Lean 4 proof (invariant lmt child <= lmt parent <= now through arbitrary write/invalidate histories on arbitrary '
              'finite trees; the recursive invalidate of base_view.cpp refined to "subtree := MIN_DT, proper ancestors := t"; link '
              'record invariant for bound inputs) + differential correspondence (probe nodes in graphs; standalone '
@@ -122,15 +146,22 @@ LEVEL_TEXT = ('Kernel-checked for every tree of time-series positions and every 
               'does; a sampled (re)bind to a valid output reads modified in its cycle and then never again before the next '
               'producer tick or (re)bind; valid and value are the producer\'s; the consumer\'s last-modified-time is the link '
               'record (>= the producer\'s, = now iff modified, = the producer\'s once it ticked after the (re)bind). The '
-              'hgv_trackbind driver must agree with that model line by line.')
+              'hgv_trackbind driver must agree with that model line by line. The key-set endpoint of a dictionary (own '
+              'tracking record; top-level and nested): for every history of at / child write / erase / touch / empty-delta steps '
+              'its last-modified-time never exceeds the dictionary\'s; after every history it is valid exactly when the dictionary is, i.e. '
+              'from the dictionary\'s first write on, and it is stamped exactly when the dictionary is written and the membership '
+              'changes or the key set was never valid (code = tidy rule, keyset_lmt_eq_spec); a TSS input bound to it reads that '
+              'record.')
 LEVEL_NOTE = ('Trusted: Lean kernel; tracking model tied to types.cpp/base_view.cpp/ts_input base_view.cpp by the two '
               'correspondence streams. The link record of a bound input is modelled from target_link.cpp (notify -> '
               'record_target_modified); the sampled bind and the structural transition from target_link.cpp bind_impl / '
               'base_view.cpp (Model/TrackBind.lean); the REF machinery above it is C13. Code, not tidy spec (modelled as coded, '
               'examples in Props/C04Bind.lean): after a sampled (re)bind the consumer\'s lmt is the bind time until the next '
               'producer tick; a plain re-bind / unbind keeps the earlier link record; a sampled re-bind valid -> not-yet-valid '
-              'reads modified and not valid; TSD children read modified with an older lmt in the sampled cycle. TSW children are '
-              'not in the track streams.')
+              'reads modified and not valid; TSD children read modified with an older lmt in the sampled cycle; '
+              'the pre-8d7f72a rule for an erase of an absent key is kept as a named counter-witness '
+              '(prefix_blind_erase_leaves_keyset_invalid, prefix_not_keysetValid). TSW children '
+              'are not in the track streams.')
 
 SCHEMAS = ['TS<Int>', 'TSB{a:TS<Int>,b:TS<Int>}', 'TSL<TS<Int>,2>',
            'TSB{a:TS<Int>,b:TSB{c:TS<Int>,d:TS<Int>}}', 'TSL<TSB{a:TS<Int>,b:TS<Int>},2>']
@@ -378,7 +409,10 @@ def streams(rng, tier, seed):
     nb = 420 if quick else 9000
     bind = _corpus_bind()
     bind += [cb.gen_bind(rng, i, rng.choice([6, 12, 25]) if quick else rng.choice([8, 20, 45])) for i in range(nb)]
-    bind += [cb.gen_bind_malformed(rng, nb + i) for i in range(12 if quick else 120)]
+    nk = 300 if quick else 6000
+    bind += [cb.gen_keyset(rng, nb + i, rng.choice([4, 8, 16]) if quick else rng.choice([6, 14, 30])) for i in range(nk)]
+    bind += [cb.gen_bind_malformed(rng, nb + nk + i) for i in range(12 if quick else 120)]
+    bind += cb.exhaustive_keyset(len(bind) + 100)
     for kind in (cb.KINDS if not quick else [rng.choice(cb.KINDS[1:])]):
         bind += cb.exhaustive_bind(kind, len(bind) + 100)
     return [ec.engine_stream('engine-probe', progs),
